@@ -18,4 +18,4 @@ package aghnet
 //@ func NewIgnoreEngine(ignored []string) (e *IgnoreEngine, err error)
 //@   property C08
 //@   callsite github.com/AdguardTeam/urlfilter/filterlist.NewRuleStorage(lists) requires lower-cased-rules: len(lists) == 1 && typeIs(lists[0], *filterlist.StringRuleList) && unbox(lists[0], *filterlist.StringRuleList).RulesText == strings.ToLower(strings.Join(ignored, "\n"))
-//@   modifies *
+//@   modifies nothing
